@@ -256,7 +256,10 @@ func NewTypecast(scope *types.Scope, imports util.ImportNames, t types.Type, inn
 			expr = imports.TypeName(typ)
 		} else if typ.Obj().Pkg() == nil || scope.Lookup(typ.Obj().Name()) == typ.Obj() {
 			expr = typ.Obj().Name()
-		} else if pkgName, ok := imports.LookupName(typ.Obj().Pkg().Path()); ok {
+		} else if pkgName, ok := imports.LookupName(typ.Obj().Pkg().Path()); ok && pkgName == "." {
+			// The members of a dot-imported package are referred to without a qualifier.
+			expr = typ.Obj().Name()
+		} else if ok {
 			expr = fmt.Sprintf("%v.%v", pkgName, typ.Obj().Name())
 		} else {
 			expr = fmt.Sprintf("%v.%v", typ.Obj().Pkg().Name(), typ.Obj().Name())
